@@ -134,7 +134,9 @@ func (t *tree) dump() string {
 		l.VirtualGetAttributes(ctx, virtual.AttributesMaskLinkCount, &a)
 		fmt.Fprintf(&b, "l%d{n%d};", i, a.GetLinkCount())
 	}
-	fmt.Fprintf(&b, "zf%d/%t", t.zf.calls, t.zf.failOnce)
+	t.w.mu.Lock()
+	fmt.Fprintf(&b, "zf%d/%t/%t", t.zf.calls, t.zf.failOnce, t.w.failNewFile)
+	t.w.mu.Unlock()
 	return b.String()
 }
 
@@ -261,6 +263,14 @@ func cRename(name string, from dirSel, a string, to dirSel, b string) call {
 		_, _, s := from(t).VirtualRename(ctx, mk(a), to(t), mk(b))
 		return sname(s)
 	}}
+}
+
+// cRenameStrict is a rename with a scenario specific set of legal results
+// (every linearisation of the scenario's calls yields one of them).
+func cRenameStrict(name string, from dirSel, a string, to dirSel, b string, legal ...string) call {
+	c := cRename(name, from, a, to, b)
+	c.legal = legal
+	return c
 }
 
 func cRemove(name string, d dirSel, n string, rmDir, rmLeaf bool) call {
@@ -406,7 +416,11 @@ func (c call) io() call { c.legal = withIO(c.legal); return c }
 type scOpt struct {
 	zFailsOnce bool
 	quick      int  // deviation bound of the quick tier (-1: unbounded, state pruning only)
-	c13        bool // also serves C13 (listing guarantee under concurrency)
+	c13        bool // also serves C13 (listing guarantee / rename semantics under concurrency)
+	// failNewFile makes the first FileAllocator.NewFile call fail: a
+	// thread can then sit inside a directory (holding its lock at the
+	// allocator's scheduling point) and leave it empty.
+	failNewFile bool
 	// thorough is the deviation bound of the thorough tier; 0 means
 	// unbounded. Three or more LockPile users contending for the same two
 	// locks can be kept rotating for ever by an adversarial scheduler
@@ -433,10 +447,11 @@ func concurrentScenario(name string, o scOpt, calls ...call) *mc.Scenario {
 		Props:    props,
 		Liveness: []string{"C14"},
 		Livelock: []string{"C14"},
-		Panics:   []string{"C14"},
+		Panics:   props,
 		Bounds:   map[string]int{"quick": quick, "thorough": thorough},
 		Build: func(x *mc.X) {
 			t := buildTree(x, zFailsOnce)
+			t.w.failNewFile = o.failNewFile
 			x.SetKey(t.dump)
 			for _, c := range calls {
 				c := c
@@ -447,6 +462,9 @@ func concurrentScenario(name string, o scOpt, calls ...call) *mc.Scenario {
 						legal := false
 						for _, l := range c.legal {
 							legal = legal || l == r
+						}
+						if !legal && o.c13 {
+							x.FailP("C13", "status-concurrent/"+c.name+"/"+r, "%s returned %s, which no order of the concurrent calls justifies (legal: %v)", c.name, r, c.legal)
 						}
 						if !legal {
 							x.FailP("C14", "status/"+c.name+"/"+r, "%s returned %s, which no interleaving with the other calls justifies (legal: %v)", c.name, r, c.legal)
@@ -514,6 +532,17 @@ func buildScenarios() []*mc.Scenario {
 			cRename("rename(d2/c->d1/g)", selD2, "c", selD1, "g"),
 			cOpenCreate("open(d1/g/n)", selG, "n"),
 			cRemoveAllChildren("RemoveAllChildren(d1)", selD1, false)),
+		// The source of a rename vanishes while the rename waits for the
+		// lock of the (empty) directory at its target name: the rename
+		// must notice (ENOENT) or have happened before the removal.
+		concurrentScenario("conc-rename-source-vanishes", scOpt{quick: -1, c13: true, failNewFile: true},
+			cRenameStrict("rename(d2/c->d1/g)", selD2, "c", selD1, "g", "OK", "ENOENT"),
+			cOpenCreate("open(d1/g/n)", selG, "n").io(),
+			cRemove("rmdir(d2/c)", selD2, "c", true, false)),
+		concurrentScenario("conc-rename-source-renamed", scOpt{quick: -1, c13: true, failNewFile: true},
+			cRenameStrict("rename(d2/b->d1/g)", selD2, "b", selD1, "g", "EISDIR", "ENOENT"),
+			cOpenCreate("open(d1/g/n)", selG, "n").io(),
+			cRename("rename(d2/b->d2/b2)", selD2, "b", selD2, "b2")),
 		// Listings with attributes that need the lock of each child
 		// directory: the listing drops the parent lock while it waits
 		// for g and finds its position gone. a and e exist throughout.
